@@ -91,6 +91,8 @@ def build(cx, stations, rows, sessions, algo_factory, t_now=2, limit_hi=100.0, u
         for i, row in enumerate(rows):
             net0.add_constraint(A.Current({ids[j]: c for j, c in enumerate(row) if c != 0}), 1000.0 + i, name="con%d" % i)
         algo0 = algo_factory()
+        if hasattr(algo0, "continuous_inc"):
+            algo0.continuous_inc = algo0.continuous_inc * 4  # the earlier simulation used a coarser round-robin increment
         sim0 = A.Simulator(net0, algo0, A.EventQueue(), START, period=PERIOD, verbose=False)
         for j in range(len(stations)):
             net0.plugin(A.EV(0, 7, 5.0, ids[j], "foreign-%d" % j, A.Battery(1000, 0, 1000)))
